@@ -58,8 +58,9 @@ type Profile struct {
 	TickModes                                                    []string
 	StallP                                                       float64 // probability that a statement gets an in-statement stall directive
 	// images
-	Boundary        int  // number of boundary images per run
-	WalStmts        int  // number of statements whose every log event gets an image
+	Boundary        int     // number of boundary images per run
+	WalStmts        int     // number of statements whose every log event gets an image
+	LazyWakeP       float64 // probability that a plan runs with Knobs.LazyWake
 	FatP            float64 // probability that a plan's tables hold only rows within a few bytes of the row limit (leaves of 8 maximal cells)
 	fat             bool
 	StrictFlushOnly bool // flush images only of the classes the engine is expected to survive (everything but C04)
@@ -279,7 +280,14 @@ func (g *gen) genWhere(db string, t *MTable, small bool) *Cond {
 	if hi == 0 {
 		hi = 1
 	}
-	pick := func() int64 { return int64(g.r.Intn(int(hi) + 1)) }
+	pick := func() int64 {
+		// a third of the time one of the newest rows: they sit in the right-most
+		// leaf, where the next split happens
+		if hi > 12 && g.r.Chance(0.33) {
+			return hi - int64(g.r.Intn(10))
+		}
+		return int64(g.r.Intn(int(hi) + 1))
+	}
 	switch g.r.Intn(7) {
 	case 0:
 		if small {
@@ -888,6 +896,9 @@ func (g *gen) composeUpdate(t *MTable) string {
 			if first >= 0 && MaxRowBytes-first > 0 {
 				ln = MaxRowBytes - first - r.Intn(2)*r.Intn(12)
 			}
+			if ln < 0 {
+				ln = 0
+			}
 			v = "'" + strings.Repeat("u", ln) + "'"
 		default:
 			switch c.Type {
@@ -1248,6 +1259,9 @@ func (g *gen) pickKnobs() Knobs {
 		// no crash images in these runs, so a 16 MiB sparse file costs little
 		k.BiasOffset = []uint64{1<<24 - 3*4096, 1<<24 - 4096, 1 << 24, 1<<24 + 4096, 1<<24 - 12*4096}[g.r.Intn(5)]
 	}
+	if pf.LazyWakeP > 0 && g.r.Chance(pf.LazyWakeP) {
+		k.LazyWake = true
+	}
 	if len(pf.FlushMargins) > 0 {
 		k.FlushMargin = pf.FlushMargins[g.r.Intn(len(pf.FlushMargins))]
 	}
@@ -1288,6 +1302,18 @@ func (g *gen) genCont(m *Model, depth int) *Plan {
 		}
 	}
 	return cont
+}
+
+// cellsEver estimates how many cells a table's tree has ever received: live
+// rows plus, as a lower bound for deleted ones, the gap to its largest tag.
+func cellsEver(m *Model, t *MTable) int {
+	n := len(t.Rows)
+	for _, r := range t.Rows {
+		if int(r.Vals[0].I)+1 > n && r.Vals[0].K == "i" {
+			n = int(r.Vals[0].I) + 1
+		}
+	}
+	return n
 }
 
 // seedForSubsetMode returns a subset seed whose first draw selects the given
@@ -1405,6 +1431,26 @@ func Generate(pf *Profile, seed uint64) *Plan {
 				}
 				if e.FailAt > 0 {
 					cands = append(cands, i, i, i, i)
+				}
+				// statements during which the table's cell count crosses a
+				// structural threshold (root leaf split at 9 cells, internal root
+				// split at 1165, first second-level split at 1749) append a
+				// catalog record between their row records
+				if db := models[i].CurDB(); db != nil && s.Kind == KInsert {
+					if t := db.Table(s.Table); t != nil {
+						before, after := cellsEver(models[i], t), cellsEver(models[i], t)+e.NOps
+						for _, th := range []int{9, 1165, 1749} {
+							if before < th && after >= th {
+								w := 6
+								if th > 9 {
+									w = 60
+								}
+								for k := 0; k < w; k++ {
+									cands = append(cands, i)
+								}
+							}
+						}
+					}
 				}
 			}
 		}
